@@ -668,3 +668,322 @@ Section KWayProofs.
         * apply Forall_set_nth; auto. apply HQr. cbn [length]. lia.
   Qed.
 End KWayProofs.
+
+(* ====================================================================== *)
+(* Part 3: initial rows, the k-way theorem, the entry point, the checker   *)
+(* ====================================================================== *)
+
+(* the execution instance of the sort satisfies the contract *)
+Lemma wts_insert_stable x l : wts (insert_stable x l) = insertZ (fst x) (wts l).
+Proof.
+  induction l as [|y t IH]; cbn [insert_stable wts map insertZ]; auto.
+  destruct (fst y <? fst x); cbn [map]; auto. fold (wts (insert_stable x t)). fold (wts t). now rewrite IH.
+Qed.
+Lemma insert_stable_perm x l : Permutation (insert_stable x l) (x :: l).
+Proof.
+  induction l as [|y t IH]; cbn [insert_stable]; auto.
+  destruct (fst y <? fst x); auto. rewrite IH. apply perm_swap.
+Qed.
+Lemma sort_stable_perm l : Permutation (sort_stable_desc l) l.
+Proof.
+  unfold sort_stable_desc.
+  assert (G : forall acc, Permutation (fold_left (fun acc x => insert_stable x acc) l acc) (l ++ acc)).
+  { induction l as [|x t IH]; intros acc; cbn [fold_left app]; auto.
+    rewrite IH, insert_stable_perm. apply Permutation_sym, Permutation_middle. }
+  rewrite G, app_nil_r. reflexivity.
+Qed.
+Lemma sort_stable_desc_ok l : descZ (wts (sort_stable_desc l)).
+Proof.
+  unfold sort_stable_desc.
+  assert (G : forall acc, descZ (wts acc) -> descZ (wts (fold_left (fun acc x => insert_stable x acc) l acc))).
+  { induction l as [|x t IH]; intros acc Hd; cbn [fold_left]; auto.
+    apply IH. rewrite wts_insert_stable. now apply insertZ_desc. }
+  apply G. exact I.
+Qed.
+
+(* ---------- the initial rows ---------- *)
+
+Definition row0 (n k : nat) (it : item) : row :=
+  (fst it, snd it) :: map (fun p => (0, (n * p + snd it)%nat)) (seq 1 (k - 1)).
+
+Lemma mk_row_row0 n k w id : (1 <= k)%nat -> mk_row n k w id = Some (row0 n k (w, id)).
+Proof.
+  intros Hk. unfold mk_row, row0. destruct k as [|k]; [lia|]. cbn [seq map fst snd].
+  replace (S k - 1)%nat with k by lia. rewrite Nat.mul_0_r. reflexivity.
+Qed.
+
+Lemma mk_rows_row0 n k its : (1 <= k)%nat -> mk_rows n k its = Some (map (row0 n k) its).
+Proof.
+  intros Hk. induction its as [|[w id] t IH]; cbn [mk_rows map]; auto.
+  rewrite mk_row_row0, IH by exact Hk. reflexivity.
+Qed.
+
+Lemma ids_row0 n k it : (1 <= k)%nat -> ids (row0 n k it) = map (fun p => (n * p + snd it)%nat) (seq 0 k).
+Proof.
+  intros Hk. unfold row0, ids. destruct k as [|k]; [lia|]. cbn [seq map snd].
+  replace (S k - 1)%nat with k by lia. rewrite Nat.mul_0_r, map_map. reflexivity.
+Qed.
+
+Lemma NoDup_map_inj {A B} (f : A -> B) l :
+  (forall x y, In x l -> In y l -> f x = f y -> x = y) -> NoDup l -> NoDup (map f l).
+Proof.
+  induction l as [|x t IH]; intros Hinj Hnd; cbn [map]; [constructor|].
+  inversion Hnd as [|? ? Hx Ht]; subst. constructor.
+  - intro C. apply in_map_iff in C as [y [E Hy]]. apply Hx.
+    rewrite (Hinj x y); auto; [now left|now right].
+  - apply IH; auto. intros a b Ha Hb. apply Hinj; now right.
+Qed.
+
+Lemma NoDup_concat_map {A B} (g : A -> list B) l :
+  NoDup l -> (forall x, In x l -> NoDup (g x)) ->
+  (forall x y i, In x l -> In y l -> In i (g x) -> In i (g y) -> x = y) ->
+  NoDup (concat (map g l)).
+Proof.
+  induction l as [|x t IH]; intros Hnd Hin Hdis; cbn [map concat]; [constructor|].
+  inversion Hnd as [|? ? Hx Ht]; subst.
+  apply NoDup_app_intro.
+  - apply Hin. now left.
+  - apply IH; auto.
+    + intros y Hy. apply Hin. now right.
+    + intros a b i Ha Hb. apply Hdis; now right.
+  - intros i Hi C. apply in_concat in C as [l' [Hl' Hil']]. apply in_map_iff in Hl' as [y [<- Hy]].
+    apply Hx. rewrite (Hdis x y i); auto; [now left|now right].
+Qed.
+
+Lemma all_ids_rows0 n k its : (1 <= k)%nat ->
+  all_ids (map (row0 n k) its) = concat (map (fun id => map (fun p => (n * p + id)%nat) (seq 0 k)) (ids its)).
+Proof.
+  intros Hk. unfold all_ids, ids at 2. rewrite !map_map. f_equal.
+  apply map_ext. intros it. now apply ids_row0.
+Qed.
+
+Lemma descZ_zeros {A} (l : list A) : descZ (map (fun _ => 0) l).
+Proof.
+  induction l as [|x t IH]; cbn [map descZ]; auto. split; auto.
+  intros y Hy. apply in_map_iff in Hy as [_ [<- _]]. lia.
+Qed.
+
+Lemma rows0_Inv ws k : (1 <= k)%nat -> Forall (fun w => 0 <= w) ws ->
+  Inv k (k * length ws) (maxl ws) (map (row0 (length ws) k) (items_of ws)).
+Proof.
+  intros Hk Hnn. set (n := length ws). unfold Inv.
+  rewrite all_ids_rows0 by exact Hk. rewrite ids_items. fold n. split; [|split].
+  - apply NoDup_concat_map.
+    + apply seq_NoDup.
+    + intros id Hid. apply in_seq in Hid. apply NoDup_map_inj; [|apply seq_NoDup].
+      intros x y Hx Hy E. apply in_seq in Hx, Hy. nia.
+    + intros x y i Hx Hy Hix Hiy. apply in_seq in Hx, Hy.
+      apply in_map_iff in Hix as [p1 [E1 _]]. apply in_map_iff in Hiy as [p2 [E2 _]].
+      destruct (Nat.lt_trichotomy p1 p2) as [L|[->|L]]; [exfalso|lia|exfalso].
+      * assert (n * (p1 + 1) <= n * p2)%nat by (apply Nat.mul_le_mono_l; lia). lia.
+      * assert (n * (p2 + 1) <= n * p1)%nat by (apply Nat.mul_le_mono_l; lia). lia.
+  - intros i Hi. apply in_concat in Hi as [l [Hl Hil]]. apply in_map_iff in Hl as [id [<- Hid]].
+    apply in_map_iff in Hil as [p [<- Hp]]. apply in_seq in Hid, Hp. nia.
+  - apply Forall_forall. intros r Hr. apply in_map_iff in Hr as [[w id] [<- Hit]].
+    assert (Hw : In w ws).
+    { apply (in_map fst) in Hit. fold (wts (items_of ws)) in Hit. now rewrite wts_items in Hit. }
+    assert (Hw0 : 0 <= w) by (rewrite Forall_forall in Hnn; auto).
+    assert (HwB : w <= maxl ws) by (now apply maxl_ge).
+    unfold row_ok, row0. cbn [fst snd]. split; [|split].
+    + cbn [length]. rewrite map_length, seq_length. lia.
+    + cbn [wts map fst]. rewrite map_map. cbn [fst]. cbn [descZ]. split; [|apply descZ_zeros].
+      intros y Hy. apply in_map_iff in Hy as [_ [<- _]]. exact Hw0.
+    + cbn [wts map fst]. rewrite map_map. cbn [fst].
+      intros x y [<-|Hx] [<-|Hy]; try (apply in_map_iff in Hx as [_ [<- _]]); try (apply in_map_iff in Hy as [_ [<- _]]); lia.
+Qed.
+
+Lemma rows0_vload n k P q its : vload P q (map (row0 n k) its) = vsum P q its.
+Proof.
+  unfold vload. induction its as [|[w id] t IH]; cbn [map concat vsum]; auto.
+  rewrite vsum_app, IH. unfold row0. cbn [fst snd vsum].
+  rewrite (vsum_zero P q (map _ _)); [lia|].
+  intros x Hx. apply in_map_iff in Hx as [p [<- _]]. reflexivity.
+Qed.
+
+Lemma nth_opt_firstn {A} (l : list A) n i : (i < n)%nat -> nth_opt (firstn n l) i = nth_opt l i.
+Proof.
+  revert n i; induction l as [|x t IH]; intros [|n] [|i] H; cbn; auto; try lia. apply IH. lia.
+Qed.
+Lemma In_firstn {A} (l : list A) n x : In x (firstn n l) -> In x l.
+Proof.
+  revert n; induction l as [|y t IH]; intros [|n]; cbn [firstn In]; try tauto.
+  intros [->|H]; [now left|right; eapply IH; eauto].
+Qed.
+
+Lemma In_loads ws p k x : In x (loads ws p k) -> exists q, (q < k)%nat /\ x = load ws p (N.of_nat q).
+Proof.
+  unfold loads. intros H. apply in_map_iff in H as [q [<- Hq]]. apply in_seq in Hq. exists q. split; [lia|reflexivity].
+Qed.
+
+Lemma maxl_nonneg ws : Forall (fun w => 0 <= w) ws -> 0 <= maxl ws.
+Proof.
+  intros H. destruct ws as [|w t]; [cbn; lia|].
+  rewrite Forall_forall in H. apply H, maxl_in. discriminate.
+Qed.
+
+(* ---------- the k-way theorem ---------- *)
+
+Theorem kk_spec : forall srt, (forall l, Permutation (srt l) l) -> (forall l, descZ (wts (srt l))) ->
+  forall ws k p0, Forall (fun w => 0 <= w) ws -> (1 <= k)%nat ->
+  length ws = length p0 -> (1 <= length ws)%nat ->
+  exists p, kk srt ws k p0 = Ok p /\ length p = length p0
+    /\ Forall (fun x => (x < N.of_nat k)%N) p
+    /\ gap (loads ws p k) <= maxl ws.
+Proof.
+  intros srt Hsp Hsd ws k p0 Hnn Hk Hlen Hn.
+  pose proof (maxl_nonneg ws Hnn) as HB.
+  unfold kk. set (n := length ws) in *. set (M := (k * n)%nat). set (B := maxl ws) in *.
+  rewrite mk_rows_row0 by exact Hk.
+  set (rows0 := map (row0 n k) (items_of ws)).
+  pose proof (sort_rows_perm rows0) as Pr.
+  assert (I0 : Inv k M B (sort_rows_desc rows0)).
+  { eapply Inv_perm; [apply Permutation_sym; exact Pr|]. apply rows0_Inv; auto. }
+  destruct (kk_loop_sound srt Hsp Hsd k M B Hk HB n (sort_rows_desc rows0) [] I0) as [Hf [new [E [If [Lf [Ne HS]]]]]].
+  { rewrite (Permutation_length Pr). unfold rows0. rewrite map_length, items_length. fold n. lia. }
+  rewrite app_nil_r in E. rewrite E. cbn [bind fst snd].
+  destruct Hf as [|last [|? ?]]; [exfalso; apply Ne; auto| |cbn in Lf; lia].
+  { intro C. apply (f_equal (@length row)) in C. rewrite (Permutation_length Pr) in C.
+    unfold rows0 in C. rewrite map_length, items_length in C. fold n in C. cbn in C. lia. }
+  destruct If as [N1 [R1 F1]]. unfold all_ids in N1, R1. cbn [map concat] in N1, R1. rewrite app_nil_r in N1, R1.
+  pose proof (Forall_inv F1) as [Ll [_ Sl]].
+  destruct (kk_init_spec k Hk last 0%nat (repeat 0%N M) N1) as [Pi [HPi [LPi [_ [Hq HQi]]]]].
+  { intros id Hid. rewrite repeat_length. now apply R1. }
+  rewrite HPi. cbn [bind]. rewrite repeat_length in LPi.
+  destruct (HS Pi LPi) as [P' [c [HB' [LP' [_ [V Q']]]]]].
+  { intros r [<-|[]] q Hq'. apply (Hq q). lia. }
+  rewrite HB'. cbn [bind].
+  assert (Lout : length (firstn (length p0) P') = length p0).
+  { rewrite firstn_length, LP'. unfold M. rewrite <- Hlen. fold n. nia. }
+  rewrite Lout, Nat.eqb_refl. eexists. split; [reflexivity|]. split; [exact Lout|]. split.
+  - apply Forall_forall. intros x Hx. apply In_firstn in Hx.
+    assert (F : Forall (fun x => (x < N.of_nat k)%N) P').
+    { apply Q', HQi.
+      - intros q Hq'. lia.
+      - apply Forall_forall. intros y Hy. apply repeat_spec in Hy. subst. lia. }
+    rewrite Forall_forall in F. auto.
+  - set (out := firstn (length p0) P').
+    assert (LD : forall q, (q < k)%nat -> exists wq, In wq (wts last) /\ load ws out (N.of_nat q) = wq + c).
+    { intros q Hq'. destruct (proj1 (Hq q)) as [_ [wq [Hwq Vq]]]; [lia|].
+      exists wq. split; [exact Hwq|].
+      rewrite <- vsum_items by (unfold out; lia).
+      rewrite (vsum_ext out P').
+      2:{ intros i Hi. rewrite ids_items in Hi. apply in_seq in Hi. unfold out. apply nth_opt_firstn. lia. }
+      rewrite <- (rows0_vload n k). fold rows0.
+      rewrite <- (vload_perm _ _ _ _ Pr), (V q Hq'). unfold vload. cbn [concat]. rewrite app_nil_r. lia. }
+    assert (Hne : loads ws out k <> []).
+    { intro C. apply (f_equal (@length Z)) in C. rewrite loads_length in C. cbn in C. lia. }
+    destruct (In_loads _ _ _ _ (maxl_in _ Hne)) as [q1 [Hq1 E1]].
+    destruct (In_loads _ _ _ _ (minl_in _ Hne)) as [q2 [Hq2 E2]].
+    destruct (LD q1 Hq1) as [w1 [Hw1 L1]]. destruct (LD q2 Hq2) as [w2 [Hw2 L2]].
+    unfold gap. rewrite E1, E2, L1, L2. specialize (Sl w1 w2 Hw1 Hw2). fold B. lia.
+Qed.
+
+(* ---------- residue bounds ---------- *)
+
+Lemma residue_loop_bound : forall fuel l b, descZ l -> Forall (fun w => 0 <= w) l ->
+  (forall x, In x l -> x <= b) -> 0 <= b -> 0 <= residue_loop fuel l <= b.
+Proof.
+  induction fuel as [|f IH]; intros l b Hd Hnn Hb Hb0.
+  - destruct l as [|x [|y t]]; cbn [residue_loop]; try lia.
+    inversion Hnn; subst. specialize (Hb x (or_introl eq_refl)). lia.
+  - destruct l as [|x [|y t]]; cbn [residue_loop]; try lia.
+    + inversion Hnn; subst. specialize (Hb x (or_introl eq_refl)). lia.
+    + destruct Hd as [Hx [Hy Ht]].
+      inversion Hnn as [|? ? Hx0 Hnn']; subst. inversion Hnn' as [|? ? Hy0 Hnt]; subst.
+      pose proof (Hx y (or_introl eq_refl)) as Hyx. pose proof (Hb x (or_introl eq_refl)) as Hxb.
+      apply IH; auto.
+      * now apply insertZ_desc.
+      * apply Forall_forall. intros z Hz. apply (Permutation_in _ (insertZ_perm (x - y) t)) in Hz.
+        destruct Hz as [<-|Hz]; [lia|]. rewrite Forall_forall in Hnt. auto.
+      * intros z Hz. apply (Permutation_in _ (insertZ_perm (x - y) t)) in Hz.
+        destruct Hz as [<-|Hz]; [lia|]. apply Hb. right. now right.
+Qed.
+
+Lemma residue_bound ws : Forall (fun w => 0 <= w) ws -> 0 <= residue ws <= maxl ws.
+Proof.
+  intros Hnn. unfold residue. apply residue_loop_bound.
+  - apply sortZ_descZ.
+  - apply Forall_forall. intros x Hx. apply (Permutation_in _ (sortZ_perm ws)) in Hx.
+    rewrite Forall_forall in Hnn. auto.
+  - intros x Hx. apply (Permutation_in _ (sortZ_perm ws)) in Hx. now apply maxl_ge.
+  - now apply maxl_nonneg.
+Qed.
+
+(* ---------- the entry point ---------- *)
+
+Lemma load_zeros ws (p0 : list N) q : length ws = length p0 ->
+  load ws (map (fun _ => 0%N) p0) q = if (0 =? q)%N then sumZ ws else 0.
+Proof.
+  revert p0; induction ws as [|w ws IH]; intros [|x p0] H; cbn [length] in H; try lia; cbn [map load].
+  - destruct (0 =? q)%N; reflexivity.
+  - rewrite IH by lia. rewrite sumZ_cons. destruct (0 =? q)%N; lia.
+Qed.
+
+Theorem kk_partition_spec : forall srt, (forall l, Permutation (srt l) l) -> (forall l, descZ (wts (srt l))) ->
+  forall ws k p0, Forall (fun w => 0 <= w) ws -> (1 <= k)%nat -> length ws = length p0 ->
+  exists p, kk_partition srt ws k p0 = Ok p /\ length p = length p0
+    /\ Forall (fun x => (x < N.of_nat k)%N) p
+    /\ ((2 <= k)%nat -> gap (loads ws p k) <= maxl ws)
+    /\ (k = 2%nat -> Z.abs (load ws p 0 - load ws p 1) = residue ws).
+Proof.
+  intros srt Hsp Hsd ws k p0 Hnn Hk Hlen. unfold kk_partition.
+  apply Nat.eqb_eq in Hlen as E. rewrite E. cbn [negb]. clear E.
+  destruct (Nat.ltb k 2 || Nat.ltb (length p0) 2) eqn:Et.
+  - (* trivial partition: a single part, or fewer than two weights *)
+    eexists. split; [reflexivity|]. split; [apply map_length|]. split; [|split].
+    + apply Forall_forall. intros x Hx. apply in_map_iff in Hx as [_ [<- _]]. lia.
+    + intros Hk2. apply orb_true_iff in Et as [Et|Et]; [apply Nat.ltb_lt in Et; lia|]. apply Nat.ltb_lt in Et.
+      assert (Hs : sumZ ws = maxl ws).
+      { destruct ws as [|w [|? ?]]; cbn in *; try lia. }
+      assert (Hne : loads ws (map (fun _ : N => 0%N) p0) k <> []).
+      { intro C. apply (f_equal (@length Z)) in C. rewrite loads_length in C. cbn in C. lia. }
+      pose proof (maxl_nonneg ws Hnn) as HB.
+      unfold gap.
+      assert (maxl (loads ws (map (fun _ : N => 0%N) p0) k) <= maxl ws).
+      { apply maxl_le_bound; auto. intros x Hx. apply In_loads in Hx as [q [_ ->]].
+        rewrite load_zeros by exact Hlen. destruct (0 =? N.of_nat q)%N; lia. }
+      assert (0 <= minl (loads ws (map (fun _ : N => 0%N) p0) k)).
+      { apply minl_ge_bound; auto. intros x Hx. apply In_loads in Hx as [q [_ ->]].
+        rewrite load_zeros by exact Hlen. destruct (0 =? N.of_nat q)%N; lia. }
+      lia.
+    + intros ->. apply orb_true_iff in Et as [Et|Et]; apply Nat.ltb_lt in Et; [lia|].
+      rewrite !load_zeros by exact Hlen.
+      change ((0 =? 0)%N) with true. change ((0 =? 1)%N) with false. cbv iota.
+      destruct ws as [|w [|? ?]]; cbn [length] in *; try lia; unfold residue; cbn; [lia|].
+      inversion Hnn; subst. lia.
+  - apply orb_false_iff in Et as [Ek En]. apply Nat.ltb_ge in Ek, En.
+    destruct (Nat.eqb_spec k 2) as [->|Hk3].
+    + destruct (kk_bipart_spec ws p0 Hlen) as [p [Hp [Lp [Tw HD]]]]; [lia|].
+      pose proof (residue_bound ws Hnn) as HR.
+      exists p. split; [exact Hp|]. split; [exact Lp|]. split; [|split].
+      * unfold two_way in Tw. rewrite Forall_forall in *. intros x Hx. specialize (Tw x Hx). lia.
+      * intros _. unfold gap, loads. cbn [seq map maxl minl]. change (N.of_nat 0) with 0%N. change (N.of_nat 1) with 1%N. lia.
+      * intros _. lia.
+    + destruct (kk_spec srt Hsp Hsd ws k p0 Hnn Hk Hlen) as [p [Hp [Lp [Fp Gp]]]]; [lia|].
+      exists p. split; [exact Hp|]. split; [exact Lp|]. split; [exact Fp|]. split; [auto|]. intros ->. congruence.
+Qed.
+
+Theorem kk_partition_mismatch : forall srt ws k p0, length ws <> length p0 ->
+  kk_partition srt ws k p0 = Err (InputLenMismatch (length p0) (length ws)).
+Proof. intros srt ws k p0 H. unfold kk_partition. apply Nat.eqb_neq in H. rewrite H. reflexivity. Qed.
+
+(* ---------- the checker decides the property ---------- *)
+
+Lemma forallb_ids_below k p :
+  ids_below k p = true <-> Forall (fun x => (x < N.of_nat k)%N) p.
+Proof.
+  unfold ids_below. rewrite forallb_forall, Forall_forall.
+  split; intros H x Hx; specialize (H x Hx); now apply N.ltb_lt.
+Qed.
+
+Theorem check_kk_ok ws k p :
+  check_kk ws k p = true <->
+  (length p = length ws /\ Forall (fun x => (x < N.of_nat k)%N) p
+   /\ (k = 2%nat -> Z.abs (load ws p 0 - load ws p 1) = residue ws)
+   /\ gap (loads ws p k) <= maxl ws).
+Proof.
+  unfold check_kk. rewrite !andb_true_iff, Nat.eqb_eq, forallb_ids_below, Z.leb_le.
+  destruct (Nat.eqb_spec k 2) as [->|Hk].
+  - rewrite Z.eqb_eq. tauto.
+  - split; [intros [[[H1 H2] _] H4]|intros [H1 [H2 [_ H4]]]]; repeat split; auto. intros; contradiction.
+Qed.
